@@ -84,5 +84,5 @@ MUTANTS = [
      "find": "    df = utils.convert_targets_column(df, target_column)\n    return _update_labels(\n        scores=scores,\n        targets=df[target_column],",
      "replace": "    return _update_labels(\n        scores=scores,\n        targets=df[target_column],"},
     {"name": "desc-not-forwarded", "target": "mokapot.dataset.update_labels",
-     "find": "        eval_fdr=eval_fdr,\n        desc=desc,\n    )\n", "replace": "        eval_fdr=eval_fdr,\n        desc=True,\n    )\n"},
+     "find": "        eval_fdr=eval_fdr,\n        desc=desc,\n    )", "replace": "        eval_fdr=eval_fdr,\n        desc=True,\n    )"},
 ]
